@@ -16,7 +16,7 @@ ASSUMPTIONS = [
     "the filesystem is a stub namespace (posixpath semantics); exists() answers are symbolic booleans / a symbolic count of taken names",
     "the three document-controlled routes to a CMap file (Encoding name, usecmap operand, Registry-Ordering) all end in CMapDB._load_data",
 ]
-OUTSIDE = ["names longer than 5 characters", "other effects of image export (PIL)", "open_filename (caller-supplied paths)", "non-POSIX path semantics"]
+OUTSIDE = ["names longer than 5 characters other than the long image names of H2_imagename:long", "other effects of image export (PIL)", "open_filename (caller-supplied paths)", "non-POSIX path semantics"]
 
 
 def h_contract(func="cmap_confined", timeout=60, **kw):
@@ -57,6 +57,38 @@ def h_alpha(func="cmap_confined", maxlen=4, timeout=200, part=None, alpha=None, 
                           "CMAP_PATH": "/e/a/ (sibling directories spelled by the alphabet)" if func == "cmap_confined_sibling" else "default"}, timeout, concretize=conc, part=part)
 
 
+LONG_LENS = [200, 240, 246, 247, 250, 251, 252, 254, 255, 256, 260, 300, 1000, 5000]
+LONG_SHAPES = ["a*", "/a*", "a*/a*", "../a*", "a*/..", "a*.bmp", "\\a*"]
+
+
+def _long_name(shape, n):
+    if shape == "a*/a*":
+        return "a" * (n // 2) + "/" + "a" * (n - n // 2 - 1)
+    fixed = shape.replace("a*", "")
+    return shape.replace("a*", "a" * max(0, n - len(fixed)))
+
+
+def h_long(timeout=200, part=None, **kw):
+    """image names far beyond the symbolic bound (up to 5000 characters, around the 255-character limit of file systems): the same contract as H2, on real calls selected by symbolic choices"""
+    mod = importlib.import_module("harness.ch_C15")
+    import pdfminer.image as im
+
+    def fn(ex):
+        name = _long_name(LONG_SHAPES[ex.choice(len(LONG_SHAPES), "shape")], LONG_LENS[ex.choice(len(LONG_LENS), "len")])
+        args = (name, ex.choice(3, "taken"), ex.choice(2, "ext"))
+        try:
+            ok = mod.image_name_confined(*args)
+        except Exception as e:
+            ex.require(False, "image_name_confined(<%d characters>, %r, %r) raised %s: %s" % (len(name), args[1], args[2], type(e).__name__, e), function="image_name_confined", args=list(args))
+        ex.require(ok, "image name of %d characters (%s...), first %d candidates taken: a path outside the output directory is created, or a path that was not reported free" % (len(name), name[:12], args[1]),
+                   function="image_name_confined", args=list(args))
+
+    def conc(m, info):
+        return {"function": info["function"], "args": info["args"], "kwargs": {}}
+    return core.run_symx("H2_imagename", fn, [im.ImageWriter._create_unique_image_name], {"name": "shapes %r with lengths %r" % (LONG_SHAPES, LONG_LENS), "exists": "the first 0..2 candidates exist"},
+                         timeout, concretize=conc, part=part)
+
+
 def replay(harness, inp):
     mod = importlib.import_module("harness.ch_C15")
     f = getattr(mod, inp["function"])
@@ -76,5 +108,6 @@ def jobs(tier):
     for k in range(4):
         J.append(Job("H1_cmap:alphabet:%d" % k, "h_alpha", {"func": "cmap_confined", "maxlen": ml, "part": [k, 4, 7]}, 300 if tier == "quick" else 1800, "H1_cmap"))
         J.append(Job("H2_imagename:alphabet:%d" % k, "h_alpha", {"func": "image_name_confined", "maxlen": ml, "part": [k, 4, 7]}, 300 if tier == "quick" else 1800, "H2_imagename"))
+    J.append(Job("H2_imagename:long", "h_long", {}, 300, "H2_imagename"))
     J.append(Job("H1_cmap:sibling", "h_alpha", {"func": "cmap_confined_sibling", "maxlen": 7 if tier == "quick" else 9, "alpha": "./a"}, 300 if tier == "quick" else 1800, "H1_cmap"))
     return J
